@@ -17,7 +17,11 @@ def handleMt (toks : List String) : Option String := do
   let adj ← argNats toks "adj"
   if tab.length ≠ adj.length then none
   let members := (tab.zip adj).map fun (t, a) => scripted t (-1 : Int) a
-  match multiTargetBatch members tags with
+  -- `pre=` present: `predict_inplace` into that caller-supplied buffer; absent: the `Predict` form
+  let res ← match arg toks "pre" with
+    | none => some (multiTargetBatch members tags)
+    | some _ => (argInts2 toks "pre").map fun pre => multiTargetInplace members tags pre
+  match res with
   | none => some "panic"
   | some out => some ("ok " ++ showList2 toString out)
 
@@ -29,7 +33,13 @@ def handleMc (toks : List String) : Option String := do
   if tab.length ≠ adj.length ∨ tab.length ≠ labels.length then none
   let members := (labels.zip (tab.zip adj)).map fun (l, t, a) =>
     (l, fun tags => (scripted t 0 a tags).map fun q => Float.ofNat q / 64)
-  some ("ok " ++ showList toString (multiClassBatch members tags 0))
+  match arg toks "pre" with
+  | none => some ("ok " ++ showList toString (multiClassBatch members tags 0))
+  | some _ =>
+    let pre ← argNats toks "pre"
+    match multiClassInplace members tags pre with
+    | none => some "panic"
+    | some out => some ("ok " ++ showList toString out)
 
 def showPr (p : Float32) : String := "~" ++ showF64 p.toFloat
 
@@ -41,7 +51,10 @@ def handlePlatt (toks : List String) : Option String := do
 
 def handleKmeans (toks : List String) : Option String := do
   let cents ← argF64s2 toks "cents"; let rows ← argF64s2 toks "rows"
-  match kmeansBatch cents rows with
+  let res ← match arg toks "pre" with
+    | none => some (kmeansBatch cents rows)
+    | some _ => (argNats toks "pre").map fun pre => kmeansInplace cents rows pre
+  match res with
   | none => some "panic"
   | some l => some ("ok " ++ showList toString l)
 
@@ -49,13 +62,25 @@ def showT (x : Float) : String := "~" ++ showF64c x
 
 def handleAffine (toks : List String) : Option String := do
   let w ← argF64s toks "w"; let b ← argF64 toks "b"; let rows ← argF64s2 toks "rows"
-  some ("ok " ++ showList showT (affineBatch rows w b))
+  match arg toks "pre" with
+  | none => some ("ok " ++ showList showT (affineBatch rows w b))
+  | some _ =>
+    let pre ← argF64s toks "pre"
+    match affineInplace rows w b pre with
+    | none => some "panic"
+    | some out => some ("ok " ++ showList showT out)
 
 def handleLinmap (toks : List String) : Option String := do
   let mean ← argF64s toks "mean"; let std ← argF64s toks "std"
   let cols ← argF64s2 toks "cols"; let bias ← argF64s toks "bias"
   let rows ← argF64s2 toks "rows"
-  some ("ok " ++ showList2 showT (linMapBatch mean std cols bias rows))
+  match arg toks "pre" with
+  | none => some ("ok " ++ showList2 showT (linMapBatch mean std cols bias rows))
+  | some _ =>
+    let pre ← argF64s2 toks "pre"
+    match linMapInplace mean std cols bias rows pre with
+    | none => some "panic"
+    | some out => some ("ok " ++ showList2 showT out)
 
 /-- pre-order tree: `L<label>` | `S<feature>:<hex threshold>` followed by the two subtrees -/
 def parseTree : Nat → List String → Option (Tree Float Nat × List String)
@@ -82,14 +107,20 @@ def handleTree (toks : List String) : Option String := do
   let ts := t.splitOn ","
   match parseTree (ts.length + 1) ts with
   | some (tree, []) =>
-    match treeBatch tree rows with
+    let res ← match arg toks "pre" with
+      | none => some (treeBatch tree rows)
+      | some _ => (argNats toks "pre").map fun pre => treeInplace tree rows pre
+    match res with
     | none => some "panic"
     | some l => some ("ok " ++ showList toString l)
   | _ => none
 
 def handleIso (toks : List String) : Option String := do
   let reg ← argF64s toks "reg"; let resp ← argF64s toks "resp"; let rows ← argF64s2 toks "rows"
-  match isoBatch reg resp rows with
+  let res ← match arg toks "pre" with
+    | none => some (isoBatch reg resp rows)
+    | some _ => (argF64s toks "pre").map fun pre => isoInplace reg resp rows pre
+  match res with
   | none => some "panic"
   | some l => some ("ok " ++ showList showF64c l)
 
